@@ -162,6 +162,110 @@ theorem maskdict_non_mapping_typeerror (v : PyVal) (mask : List Char) :
     (∀ items, v ≠ .map items) ↔ maskDict v mask = .error .typeError := by
   cases v <;> simp [maskDict]
 
+/-! ### closed form, and corollaries read off it -/
+
+/-- closed form: on a mapping with distinct keys the result is the argument's item list with each value
+    replaced by `maskValue` of its own key and value -- one output entry per input entry, in order, no entry
+    depending on any other entry -/
+theorem maskdict_closed_form (items : List (PyKey × PyVal)) (mask : List Char) (h : WFVal (.map items)) :
+    maskDict (.map items) mask = .ok (.map (items.map (fun kv => (kv.1, maskValue mask kv.1 kv.2)))) := by
+  cases h with
+  | map _ hi hn => simp only [maskDict]; rw [lemma_maskItems_nodup mask items [] hn (by simp)]; simp
+
+/-- every entry of the argument has its counterpart in the result, and the result holds nothing else -/
+theorem maskdict_entries (items : List (PyKey × PyVal)) (mask : List Char) (h : WFVal (.map items)) :
+    ∃ items', maskDict (.map items) mask = .ok (.map items') ∧ items'.length = items.length ∧
+      (∀ k v, (k, v) ∈ items → (k, maskValue mask k v) ∈ items') ∧
+      (∀ k r, (k, r) ∈ items' → ∃ v, (k, v) ∈ items ∧ r = maskValue mask k v) := by
+  refine ⟨_, maskdict_closed_form items mask h, by simp, ?_, ?_⟩
+  · intro k v hm; exact List.mem_map.2 ⟨(k, v), hm, rfl⟩
+  · intro k r hm
+    obtain ⟨⟨k', v'⟩, hm', he⟩ := List.mem_map.1 hm
+    cases he
+    exact ⟨v', hm', rfl⟩
+
+/-- a non-mapping value under a str key containing a sanitize key is replaced by the mask, whatever it was -/
+theorem maskdict_hit_replaces (mask ks : List Char) (v : PyVal) (hk : keyMatches Gen.sanitizeKeys ks = true)
+    (hv : ∀ items, v ≠ .map items) : maskValue mask (.str ks) v = .str mask := by
+  match v, hv with
+  | .map items, hv => exact absurd rfl (hv items)
+  | .str s, _ => simp [maskValue, hk]
+  | .opaque i, _ => simp [maskValue, hk]
+
+/-- a mapping value is recursed into whatever its key is -- also under a sanitize key, where it is NOT
+    replaced by the mask -/
+theorem maskdict_mapping_always_recursed (mask : List Char) (k : PyKey) (items : List (PyKey × PyVal)) :
+    maskValue mask k (.map items) = .map (maskItems mask items []) := by
+  rw [maskValue]
+
+/-- the key plays no part for a mapping value -/
+theorem maskdict_mapping_key_irrelevant (mask : List Char) (k k' : PyKey) (items : List (PyKey × PyVal)) :
+    maskValue mask k (.map items) = maskValue mask k' (.map items) := by
+  rw [maskValue, maskValue]
+
+/-- a key that is not a `str` never causes masking: an object is returned as it is, a string goes through
+    `mask_password` -/
+theorem maskdict_nonstr_key (mask : List Char) (i j : Nat) (s : List Char) :
+    maskValue mask (.other i) (.opaque j) = .opaque j ∧
+    maskValue mask (.other i) (.str s) = .str (maskPassword s mask) := by
+  constructor <;> simp [maskValue]
+
+/-- a str key containing no sanitize key behaves like a non-str key -/
+theorem maskdict_miss_key (mask ks : List Char) (j : Nat) (s : List Char)
+    (hk : keyMatches Gen.sanitizeKeys ks = false) :
+    maskValue mask (.str ks) (.opaque j) = .opaque j ∧
+    maskValue mask (.str ks) (.str s) = .str (maskPassword s mask) := by
+  constructor <;> simp [maskValue, hk]
+
+/-- objects that are neither `str` nor mapping are never looked into: the result for such a value does not
+    depend on which object it is beyond its identity (it is the same object or the mask) -/
+theorem maskdict_opaque_same_or_mask (mask : List Char) (k : PyKey) (j : Nat) :
+    maskValue mask k (.opaque j) = .opaque j ∨ maskValue mask k (.opaque j) = .str mask := by
+  cases k with
+  | other i => left; simp [maskValue]
+  | str ks => by_cases hk : keyMatches Gen.sanitizeKeys ks = true <;> simp [maskValue, hk]
+
+mutual
+theorem lemma_maskValue_wf (mask : List Char) (k : PyKey) :
+    (v : PyVal) → WFVal v → WFVal (maskValue mask k v)
+  | .map items, h => by
+    cases h with
+    | map _ hi hn =>
+      rw [maskValue, lemma_maskItems_nodup mask items [] hn (by simp)]
+      refine .map _ (by simpa using lemma_maskItems_wf mask items hi) ?_
+      simpa [List.map_map, Function.comp_def] using hn
+  | .str s, _ => by
+    cases k with
+    | str ks => by_cases hk : keyMatches Gen.sanitizeKeys ks = true <;> simp only [maskValue, hk] <;> constructor
+    | other i => simp only [maskValue]; constructor
+  | .opaque i, _ => by
+    cases k with
+    | str ks => by_cases hk : keyMatches Gen.sanitizeKeys ks = true <;> simp only [maskValue, hk] <;> constructor
+    | other j => simp only [maskValue]; constructor
+theorem lemma_maskItems_wf (mask : List Char) :
+    (items : List (PyKey × PyVal)) → WFItems items →
+      WFItems (items.map (fun kv => (kv.1, maskValue mask kv.1 kv.2)))
+  | [], _ => .nil
+  | (k, v) :: rest, h => by
+    cases h with
+    | cons _ _ _ hv hr =>
+      exact .cons k _ _ (lemma_maskValue_wf mask k v hv) (lemma_maskItems_wf mask rest hr)
+end
+
+/-- the result is again a well-formed nested mapping (distinct keys at every level): it can be the argument
+    of a further call, to which all of the above applies -/
+theorem maskdict_result_wf (items : List (PyKey × PyVal)) (mask : List Char) (h : WFVal (.map items)) :
+    ∃ r, maskDict (.map items) mask = .ok r ∧ WFVal r := by
+  refine ⟨_, maskdict_closed_form items mask h, ?_⟩
+  have := lemma_maskValue_wf mask (.other 0) (.map items) h
+  cases h with
+  | map _ hi hn => rwa [maskValue, lemma_maskItems_nodup mask items [] hn (by simp), List.nil_append] at this
+
+/-- the answer is a function of the argument and the mask only: two calls (in any order, with anything in
+    between) on equal arguments give equal results -/
+theorem maskdict_deterministic (v v' : PyVal) (mask mask' : List Char) (hv : v = v') (hm : mask = mask') :
+    maskDict v mask = maskDict v' mask' := by subst hv; subst hm; rfl
+
 /-- non-vacuity: a three-level mapping with str and non-str keys meets the invariant -/
 example : WFVal (.map [(.str "Password".toList, .str "x".toList),
                        (.other 3, .map [(.str "n".toList, .opaque 0),
